@@ -22,7 +22,7 @@ STRINGS = ['""', "''", '"a"', "'a'", '"hello world"', "'it\\'s'", '"say \\"hi\\"
            "'\\\\'", '"\\x41"', '"\\u0041"', '"\\0"', "'\\r\\n'", '"/*not a comment*/"', "'// nor this'",
            '"\\b\\f\\v"', '"é"', "'变'", '"a\'b"', "'a\"b'", '"\\/"', "'\\q'", '"use strict"', "' '", '";"',
            '"}"', "'{'", '"</script>"']
-STRINGS_CONT = ['"a\\\nb"', "'a\\\r\nb'", '"x\\\ry"', '"p\\ q"', "'\\\n'"]
+STRINGS_CONT = ['"a\\\nb"', "'a\\\r\nb'", '"x\\\ry"', '"p\\\u2028q"', "'\\\n'"]
 REGEXES = ['/a/', '/a/g', '/ab+c/gi', '/[/]/', '/[a-z]/i', '/\\//', '/a\\/b/m', '/[\\]]/', '/(?:a|b)*/',
            '/^$/', '/\\d+/g', '/[^/]/', '/=/', '/=a/', '/ /', '/a b/', '/\\s/', '/[/\\]/]/', '/"/', "/'/",
            '/a/gim', '/{/', '/}/', '/(/ ', '/[(]/']
@@ -692,8 +692,8 @@ def generate(rng, opts=None, force=None, tries=12):
 # ---------------------------------------------------------------------------
 # W3 layout rendering
 
-LINE_TERMINATORS = ['\n', '\r', '\r\n', ' ', ' ']
-SPACES = [' ', '  ', '\t', ' \t ', '\x0b', '\x0c', '\xa0', '﻿']
+LINE_TERMINATORS = ['\n', '\r', '\r\n', '\u2028', '\u2029']
+SPACES = [' ', '  ', '\t', ' \t ', '\x0b', '\x0c', '\xa0', '\ufeff']
 
 
 def _wordy(c):
@@ -791,8 +791,8 @@ def mutate_tokens(tokens, rng):
     return toks
 
 
-HOSTILE_CHARS = ['"', "'", '\\', '/', '*', '(', ')', '{', '}', '[', ']', '\n', '\r', ' ', ' ', '\x00',
-                 '﻿', '😀', '\ud800', '\udfff', '#', '@', '`', '.', '0', 'e', 'x', 'u', ';', ' ',
+HOSTILE_CHARS = ['"', "'", '\\', '/', '*', '(', ')', '{', '}', '[', ']', '\n', '\r', '\u2028', '\u2029', '\x00',
+                 '\ufeff', '😀', '\ud800', '\udfff', '#', '@', '`', '.', '0', 'e', 'x', 'u', ';', ' ',
                  '=', '+', '-', '<', '>', '!', '?', ':', ',', '~', '^', '%', '&', '|', 'é', '‿', '́']
 
 
